@@ -1,10 +1,11 @@
 (* Properties_C16.v — file statements obey the handle state machine and never lose data silently.
-   PARTIAL: proved for OPENFILE against the disk (refusals, truncation, append, handle table) and for
-   what CLOSEFILE writes.  The per-statement legality table (which statement is accepted in which handle
-   state) lives in Eval.v's file cases and is compared with the implementation, step by step, against an
-   explicit handle-state spec on exhaustive short and random long histories; real operating-system
-   refusals are exercised only through the listed fault sequences. *)
-From PE2 Require Import Files Lemmas_Handles.
+   Proved: OPENFILE against the disk (refusals, truncation, append, handle table); what CLOSEFILE writes; and the legality table
+   of the statements -- READFILE, WRITEFILE, CLOSEFILE, OPENFILE, SEEK, GETRECORD, PUTRECORD used on a name that is not open
+   (or, for OPENFILE, is open) or on a handle of the wrong mode are runtime errors that leave the WHOLE state as it was, in every
+   state (file name a string literal).  PARTIAL: EOF (a built-in) and names computed by expressions are compared only, step by
+   step, against an explicit handle-state spec on exhaustive short and random long histories; real operating-system refusals are
+   exercised only through the listed fault sequences. *)
+From PE2 Require Import Files Lemmas_Handles Eval Run Lemmas_FileStates.
 
 Theorem C16_open_unusable_name_reported : forall name mode s, os_name_ok name = false -> create_file name mode s = (Ok false, s).
 Proof. exact open_bad_name_fails. Qed.
@@ -37,3 +38,49 @@ Theorem C16_close_of_unmodified_handle_keeps_disk : forall f s, (of_mode f <> FR
   close_file_effect f s = (Ok Datatypes.tt, s).
 Proof. exact close_unmodified_keeps_disk. Qed.
 Print Assumptions C16_close_of_unmodified_handle_keeps_disk.
+
+(* ---- the handle state machine: a statement used in a state in which it is not legal is a runtime error and leaves the WHOLE
+   state -- every file's contents, every handle, every variable, the output -- exactly as it was.  For every state, context, fuel
+   and option setting; the file name is a string literal (the error is raised before anything else is evaluated). ---- *)
+Theorem C16_readfile_needs_a_read_handle : forall ped repl lim fuel t name id c s,
+  (find_file (tval name) (s_files s) = None \/ exists fh, find_file (tval name) (s_files s) = Some fh /\ of_mode fh <> FRead) ->
+  exists f, ev_eval (evs_at ped repl lim (S (S fuel))) (NReadFile t (NStr name) id) c s = (Fail f, s).
+Proof. exact readfile_needs_a_read_handle. Qed.
+Print Assumptions C16_readfile_needs_a_read_handle.
+
+Theorem C16_writefile_needs_a_write_or_append_handle : forall ped repl lim fuel t name d c s,
+  (find_file (tval name) (s_files s) = None \/ exists fh, find_file (tval name) (s_files s) = Some fh /\ (of_mode fh = FRead \/ of_mode fh = FRandom)) ->
+  exists f, ev_eval (evs_at ped repl lim (S (S fuel))) (NWriteFile t (NStr name) d) c s = (Fail f, s).
+Proof. exact writefile_needs_a_write_or_append_handle. Qed.
+Print Assumptions C16_writefile_needs_a_write_or_append_handle.
+
+Theorem C16_closefile_needs_an_open_handle : forall ped repl lim fuel t name c s,
+  find_file (tval name) (s_files s) = None -> exists f, ev_eval (evs_at ped repl lim (S (S fuel))) (NCloseFile t (NStr name)) c s = (Fail f, s).
+Proof. exact closefile_needs_an_open_handle. Qed.
+Print Assumptions C16_closefile_needs_an_open_handle.
+
+Theorem C16_openfile_needs_a_closed_name : forall ped repl lim fuel t name mode c s fh,
+  find_file (tval name) (s_files s) = Some fh -> exists f, ev_eval (evs_at ped repl lim (S (S fuel))) (NOpenFile t (NStr name) mode) c s = (Fail f, s).
+Proof. exact openfile_needs_a_closed_name. Qed.
+Print Assumptions C16_openfile_needs_a_closed_name.
+
+Theorem C16_getrecord_needs_a_random_handle : forall ped repl lim fuel t name id c s,
+  (find_file (tval name) (s_files s) = None \/ exists fh, find_file (tval name) (s_files s) = Some fh /\ of_mode fh <> FRandom) ->
+  exists f, ev_eval (evs_at ped repl lim (S (S fuel))) (NGetRecord t (NStr name) id) c s = (Fail f, s).
+Proof. exact getrecord_needs_a_random_handle. Qed.
+Print Assumptions C16_getrecord_needs_a_random_handle.
+
+Theorem C16_putrecord_needs_a_random_handle : forall ped repl lim fuel t name id c s,
+  (find_file (tval name) (s_files s) = None \/ exists fh, find_file (tval name) (s_files s) = Some fh /\ of_mode fh <> FRandom) ->
+  exists f, ev_eval (evs_at ped repl lim (S (S fuel))) (NPutRecord t (NStr name) id) c s = (Fail f, s).
+Proof. exact putrecord_needs_a_random_handle. Qed.
+Print Assumptions C16_putrecord_needs_a_random_handle.
+
+(* SEEK evaluates the address first: for any address expression that yields an INTEGER >= 1 without touching the state, a handle
+   that is not RANDOM, a name that is not open, or an address beyond the end is an error with the state unchanged *)
+Theorem C16_seek_needs_a_random_handle_and_an_address_in_range : forall ped repl lim fuel t name a c s ar addr,
+  ev_eval (evs_at ped repl lim (S fuel)) a c s = (Ok ar, s) -> dk (r_type ar) = KInt -> r_val ar = Some (PInt addr) -> (1 <= addr)%Z ->
+  (find_file (tval name) (s_files s) = None \/ exists fh, find_file (tval name) (s_files s) = Some fh /\ (of_mode fh <> FRandom \/ rf_seek fh addr = None)) ->
+  exists f, ev_eval (evs_at ped repl lim (S (S fuel))) (NSeek t (NStr name) a) c s = (Fail f, s).
+Proof. exact seek_needs_a_random_handle. Qed.
+Print Assumptions C16_seek_needs_a_random_handle_and_an_address_in_range.
